@@ -532,6 +532,32 @@ TickUseful == \E u \in Threads : pc[u] = "wn_7_pd" /\ dl[u] > now
 Tick == /\ now < MaxNow /\ TickUseful
         /\ now' = now + 1
         /\ UNCHANGED <<pc, value, waited, cwaiters, lockh, nww, sem, ip, ret, everzero, freed, stack, d, v, wk, dl, rdy, enq, still>>
+\* BEGIN GENERATED (tools/mkspec.py)
+KindMap == [x \in {"c0", "ca_1_lk", "ca_2_ld", "ca_3_cas", "ca_4_l", "ca_4_ld", "ca_5_l", "ca_5_st", "ca_6_v", "ca_7_ul", "cd_1_lk", "cd_2_ld", "cd_3_ld", "cd_4_st", "cd_5_ul", "ce_1_lk", "ce_2_ld", "ce_3_st", "ce_4_ul", "cf_1_lk", "cf_2_ul", "cn_1_st", "cr_1_st", "cr_2_ld", "cv_1_ld", "cw_1_ld", "wn_1_st", "wn_7_pd", "wr_1_st", "wr_2_ld", "Done"} |-> CASE x = "c0" -> "c" [] x = "ca_1_lk" -> "lock" [] x = "ca_2_ld" -> "ld" [] x = "ca_3_cas" -> "cas" [] x = "ca_4_l" -> "local" [] x = "ca_4_ld" -> "ld" [] x = "ca_5_l" -> "local" [] x = "ca_5_st" -> "st" [] x = "ca_6_v" -> "v" [] x = "ca_7_ul" -> "unlock" [] x = "cd_1_lk" -> "lock" [] x = "cd_2_ld" -> "ld" [] x = "cd_3_ld" -> "ld" [] x = "cd_4_st" -> "st" [] x = "cd_5_ul" -> "unlock" [] x = "ce_1_lk" -> "lock" [] x = "ce_2_ld" -> "ld" [] x = "ce_3_st" -> "st" [] x = "ce_4_ul" -> "unlock" [] x = "cf_1_lk" -> "lock" [] x = "cf_2_ul" -> "unlock" [] x = "cn_1_st" -> "st" [] x = "cr_1_st" -> "st" [] x = "cr_2_ld" -> "ld" [] x = "cv_1_ld" -> "ld" [] x = "cw_1_ld" -> "ld" [] x = "wn_1_st" -> "st" [] x = "wn_7_pd" -> "pd" [] x = "wr_1_st" -> "st" [] x = "wr_2_ld" -> "ld" [] x = "Done" -> "none"]
+ResetAll == (* Global variables *)
+        /\ value' = V0
+        /\ waited' = 0
+        /\ cwaiters' = <<>>
+        /\ lockh' = 0
+        /\ nww' = [t \in Threads |-> 0]
+        /\ sem' = [t \in Threads |-> 0]
+        /\ now' = 0
+        /\ ip' = [t \in Threads |-> 1]
+        /\ ret' = [t \in Threads |-> -1]
+        /\ everzero' = (V0 = 0)
+        /\ freed' = FALSE
+        (* Procedure add *)
+        /\ d' = [ self \in ProcSet |-> defaultInitValue]
+        /\ v' = [ self \in ProcSet |-> 0]
+        /\ wk' = [ self \in ProcSet |-> 0]
+        (* Procedure cwait *)
+        /\ dl' = [ self \in ProcSet |-> defaultInitValue]
+        /\ rdy' = [ self \in ProcSet |-> FALSE]
+        /\ enq' = [ self \in ProcSet |-> FALSE]
+        /\ still' = [ self \in ProcSet |-> FALSE]
+        /\ stack' = [self \in ProcSet |-> << >>]
+        /\ pc' = [self \in ProcSet |-> "c0"]
+\* END GENERATED
 LocalPending == {u \in Threads : pc[u] \in LocalLabels}
 NextU == IF LocalPending # {} THEN Step(CHOOSE u \in LocalPending : TRUE)
          ELSE (\E self \in Threads : Step(self)) \/ Tick
